@@ -43,12 +43,14 @@ def run(tier, seed):
                 kinds.setdefault((pos, h[0], h[1]), b)
         two = list({json.dumps(b["hist"]): b for b in list(kinds.values()) + rng.sample(two, 25)}.values())
     scen = two + five
+    # a peer that starts talking at once: the first frame (a name-addressed message) arrives in one piece with the last handshake message
+    eager = [dict(b, eager_first=True) for b in (two + five) if b["hist"] and b["hist"][0] == ["send_name", "alpha"]]
+    scen = scen + (eager if thorough else eager[:6])
     # quiet periods during which the peer keeps ticking: every 12 s (OTP's default interval is 15 s) and, in the thorough tier, every 4 s.
     # They take real time, so they run in a second runner process (own node, own ports) next to the other scenarios.
     base = {"alive": True, "registered": True, "delivered": {"P1": [[2, "send_pid"]], "P2": []}, "callGot": 0, "live": ["P1", "P2"]}
-    idle = [{**base, "hist": [["ticks", "12000x1"], ["send_pid", "P1"]], "idle": "12s"}]
-    if thorough:
-        idle.append({**base, "hist": [["ticks", "4000x3"], ["send_pid", "P1"]], "idle": "4s"})
+    idle = [{**base, "hist": [["ticks", "12000x1"], ["send_pid", "P1"]], "idle": "12s"},
+            {**base, "hist": [["ticks", "4000x3"], ["send_pid", "P1"]], "idle": "4s"}]
     for i, s in enumerate(scen + idle):
         s["id"] = i
     sp = os.path.join(lib.outdir(PID), "scenarios.ndjson")
@@ -75,7 +77,7 @@ def run(tier, seed):
         raise lib.ToolError("scenario runner returned too few observations")
     for o in obs:
         s = scen[o["id"]]
-        v.case(json.dumps(s["hist"]))
+        v.case(json.dumps([s["hist"], s.get("eager_first", False), s.get("idle")]))
         case = {"frames": s["hist"]}
         if "tool_error" in o:
             raise lib.ToolError("inbound runner: " + o["tool_error"])
